@@ -201,6 +201,7 @@ class Built:
         self.registry = DurationRegistry()
         self.reg_keys: List[str] = []
         self.lost_label: Optional[str] = None
+        self.unset_keys: Dict[str, Any] = {}
 
     def leaves(self) -> List[Node]:
         out = []
@@ -260,6 +261,13 @@ def _make_leaf(ctx, node: Node, circuit: DeclarativeCircuit, relation, built: Bu
     if k[0] == 'R':
         # Wait whose duration is looked up in a DurationRegistry (value symbolic, may be changed later by the history)
         key = 'key_' + node.label().replace('.', '_')
+        if len(k) > 3 and k[3] == 'unset':
+            # the key is not assigned before the circuit is built (the registry serves its default 0.0 until the history sets it)
+            node.dur = 0.0
+            built.reg_keys.append(key)
+            built.unset_keys[key] = node
+            built.durs[node.label()] = node.dur
+            return co.Wait(k[1], qubit_channel=CH[k[2]], duration_strategy=RegistryDurationStrategy(registry=built.registry, registry_key=key), **kw)
         node.dur = ctx.real(('v_' + node.label().replace('.', '_')) if not built.dur_pool else _dur_name(node, built), lo=0, reuse=True)
         built.registry.set_registry_at(key, node.dur)
         built.reg_keys.append(key)
@@ -363,10 +371,12 @@ def _same_kind(a, b) -> bool:
                 return False
     sa, sb = getattr(a, 'duration_strategy', None), getattr(b, 'duration_strategy', None)
     if isinstance(sa, FixedDurationStrategy) and isinstance(sb, FixedDurationStrategy):
-        if sa is not sb and not (type(sa.duration) in (int, float) and sa.duration == sb.duration and type(sb.duration) in (int, float)):
+        if sa is not sb and sa.duration is not sb.duration and not (type(sa.duration) in (int, float) and sa.duration == sb.duration and type(sb.duration) in (int, float)):
             return False
     elif isinstance(sa, RegistryDurationStrategy) or isinstance(sb, RegistryDurationStrategy):
-        if sa is not sb:
+        # (a copy that replaced the registry strategy by something else still is the counterpart of the step if it reports the very
+        #  same duration object now; whether it keeps following the registry is for the harness' duration clauses to decide)
+        if sa is not sb and not (type(sa) is not type(sb) and a.duration is b.duration):
             return False
     return True
 
